@@ -26,6 +26,10 @@ def convertResource (a : BoundedAttributes) : Option PResource :=
   let m := convertAttributes a
   if m.accepts then some m else none
 
+/-- the `line_no` of the TracePointConfig a trigger builds for a location whose line is `l`
+    (`LocationAction.tracepoint` → `TracePointConfig.__init__` → the `line_no` property; all three translated) -/
+def configuredLineNo (l : Int) : Int := tracepointLineNo (tracepointStoredLine l)
+
 /-! ### reading a message back (the documented wire naming) -/
 
 def projectVariableId (m : PVariableID) : VariableId :=
@@ -231,8 +235,10 @@ structure Grpc where
   asked : Nat := 0
 deriving Repr
 
-/-- `GRPCService.metadata()`.  `faults i = true`: the provider raises when it is asked for the i-th time (token not
-    available yet, …) — the exception propagates (`none`), nothing is cached, the next call asks again. -/
+/-- `GRPCService.metadata()`.  `faults i = true`: `_build_metadata` raises the i-th time it is entered with a provider
+    configured — `provide()` raises (token not available yet, …) or `get_provider` cannot load the configured class
+    (`getProviderLoad`: no statement of it is guarded; a class that cannot be loaded is `faults = fun _ => true`) — the
+    exception propagates (`none`), nothing is cached, the next call asks again. -/
 def Grpc.metadata (g : Grpc) (c : AuthCfg) (faults : Nat → Bool) : Option Metadata × Grpc :=
   match g.cache with
   | some md => (some md, g)
